@@ -291,11 +291,14 @@ func (fr *Frame) contractForInline(f *ssa.Function) *Contract {
 // execFunction runs f's body on st (updated in place to the merged return state) and returns its result
 func (vc *VC) execFunction(f *ssa.Function, bindings []Value, args []Value, st *State, ct *Contract) Value {
 	fr := &Frame{vc: vc, fn: f, env: map[ssa.Value]Value{}, cells: map[*ssa.Alloc]*LocalCell{}, loops: vc.prog.loopsOf(f), contract: ct}
+	fr.specEnv = map[string]SVal{}
 	for i, p := range f.Params {
 		fr.env[p] = args[i]
+		fr.specEnv[p.Name()] = SVal{V: args[i], T: p.Type()}
 	}
 	for i, fv := range f.FreeVars {
 		fr.env[fv] = bindings[i]
+		fr.specEnv[fv.Name()] = SVal{V: bindings[i], T: fv.Type()}
 	}
 	fr.entry = st.clone()
 	vc.stack = append(vc.stack, f)
@@ -382,6 +385,7 @@ func (fr *Frame) applyContract(site ssa.Instruction, ct *Contract, sig *types.Si
 		}
 	}
 	pre := st.clone()
+	fr.curCallEnv = env
 	ev := &SpecEval{vc: vc, fr: fr, names: env, cur: pre, old: pre}
 	for _, cl := range ct.Clauses {
 		if cl.Kind != "requires" {
@@ -434,6 +438,10 @@ func (fr *Frame) applyContract(site ssa.Instruction, ct *Contract, sig *types.Si
 			v = IfaceV{tag, vc.alloc()}
 		} else if isFresh(n) && kindOf(t) == "slice" {
 			v = SliceV{vc.alloc(), Var(freshName("ret."+n+".l"), SInt)}
+		} else if ct.isForeign(n) && kindOf(t) == "ref" {
+			v = VarForeign(freshName("ret."+n), vc.allocN+1, 1, vc.allocN-1)
+		} else if ct.isForeign(n) && kindOf(t) == "iface" {
+			v = IfaceV{Var(freshName("ret."+n+".t"), SInt), VarForeign(freshName("ret."+n+".v"), vc.allocN+1, 1, vc.allocN-1)}
 		} else {
 			v = freshValue(t, "ret."+n, vc.allocN+1)
 		}
@@ -543,6 +551,36 @@ func (fr *Frame) havocAssigns(ct *Contract, st *State) {
 		case a == "fresh":
 			for k, h := range st.Heap {
 				st.Heap[k] = HavocAbove(h, vc.allocN, VarB(freshName(k+"@call"), h.S, vc.allocN+2))
+			}
+		case strings.HasPrefix(a, "obj:"):
+			// every cell of the object a parameter refers to (and of its nested parts)
+			v, ok := fr.curCallEnv[strings.TrimPrefix(a, "obj:")]
+			if !ok {
+				vc.warn("assigns %s: no such parameter in %s", a, ct.Key)
+				continue
+			}
+			var ref *Term
+			switch x := v.V.(type) {
+			case *Term:
+				ref = x
+			case IfaceV:
+				ref = x.Val
+			}
+			lo, hi := noBound, noBound
+			if ref != nil {
+				lo, hi = rootRange(ref)
+			}
+			if ref == nil || lo != hi || lo == noBound {
+				// unknown object: fall back to havocing everything
+				vc.warn("assigns %s in %s: object not statically known, whole heap havoced", a, ct.Key)
+				for k, h := range st.Heap {
+					st.Heap[k] = VarB(freshName(k+"@call"), h.S, vc.allocN+2)
+				}
+				continue
+			}
+			for k, h := range st.Heap {
+				nv := VarB(freshName(k+"@obj"), h.S, vc.allocN+2)
+				st.Heap[k] = HavocFam(h, lo, nv)
 			}
 		case strings.HasPrefix(a, "C:") || strings.HasPrefix(a, "M:"):
 			h := st.heapGet(a)
@@ -694,6 +732,19 @@ func (fr *Frame) appendOp(site ssa.Instruction, com *ssa.CallCommon, st *State, 
 		}
 		return SliceV{nb, nl}
 	}
+	// lengths that are small case distinctions (ite over literals): copy cell by cell up to the largest case
+	if mx, ok := maxLit(s.Len); ok && mx <= 16 {
+		if amx, ok2 := maxLit(add.Len); ok2 && amx <= 4 {
+			for i := int64(0); i < mx; i++ {
+				st.store(Elem(nb, IntLit(i)), et, st.load(Elem(s.Base, IntLit(i)), et))
+			}
+			for i := int64(0); i < amx; i++ {
+				st.store(Elem(nb, Add(s.Len, IntLit(i))), et, st.load(Elem(add.Base, IntLit(i)), et))
+			}
+			vc.addFact(st, Le(IntLit(0), s.Len))
+			return SliceV{nb, nl}
+		}
+	}
 	// symbolic lengths: the new backing array agrees with the old elements (quantified facts per scalar cell)
 	fr.copyFacts(st, nb, IntLit(0), s.Base, IntLit(0), s.Len, et)
 	if add.Len.Op == "int" && add.Len.Int <= 16 {
@@ -803,4 +854,25 @@ func (fr *Frame) runDefers(st *State) {
 		}
 		delete(st.Ghost, d.flag)
 	}
+}
+
+// maxLit: the largest value of an ite-tree whose leaves are all integer literals
+func maxLit(t *Term) (int64, bool) {
+	switch t.Op {
+	case "int":
+		return t.Int, true
+	case "ite":
+		a, ok1 := maxLit(t.Args[1])
+		b, ok2 := maxLit(t.Args[2])
+		if ok1 && ok2 {
+			return max64(a, b), true
+		}
+	case "+":
+		a, ok1 := maxLit(t.Args[0])
+		b, ok2 := maxLit(t.Args[1])
+		if ok1 && ok2 {
+			return a + b, true
+		}
+	}
+	return 0, false
 }
